@@ -15,7 +15,8 @@ func init() {
 			"Added after blind round 5: the log file is written through the buffered writer only and record writers never flush; error classes of the replay loops distinguish == from errors.Is (a wrapped unexpected EOF must still end the log); recovery's last table stays mutable; precedence slices grow at the end only. " +
 			"Added after blind round 6: recovery's limits (MaxMemTables, MemTableSize) are copied unchanged from the configuration and no sequence number is excluded, so recovery accepts every log the engine wrote within its limits. " +
 			"Added after blind round 8: replay mirrors the live apply: MemTable.ProcessWALEntry is evaluated for every entry type the log accepts — put → Put, delete → Delete, merge → no effect, and none of them fails. " +
-			"Added after blind round 9: wal.OpenReader fails only behind a failed system call (a size or content test there bypasses the replay loop's damage classes and sends recovery to its give-up arm); the temporary name a table is written under does not carry an extension the table loaders select (a crash between create and rename must not leave something the next open tries to load).",
+			"Added after blind round 9: wal.OpenReader fails only behind a failed system call (a size or content test there bypasses the replay loop's damage classes and sends recovery to its give-up arm); the temporary name a table is written under does not carry an extension the table loaders select (a crash between create and rename must not leave something the next open tries to load). " +
+			"Added after blind round 10: every *.sst entry of the table directory is loaded at open.",
 		NotDecided: "the state at arbitrary stop instants, torn writes, directory fsync, repeated crash/recover cycles — all need execution under fault injection.",
 		Rules:      []func(*Ctx, *Reporter){ruleStWriteAhead, ruleWalSyncBeforeAck, ruleStRotation, ruleStRecovery, ruleSstFinish, ruleDestructiveOps, ruleStFlushPublish, ruleReuseValidatesTail, ruleWalBatch, ruleWalFragmentation, ruleRecoveryLastTableMutable, ruleWalFileWriters, ruleWalErrorClasses, subRules(ruleLayerOrder, "newest-is-last"), ruleRecoveryLimitsAreConfigured, ruleReplayMirrorsLiveApply, ruleLogOpenFailsOnlyOnIO, ruleTempNamesInvisibleToLoaders, ruleLoaderLoadsEveryTable},
 	})
@@ -30,7 +31,8 @@ func init() {
 			"Added after blind round 6: (a) the transaction buffer keeps no state derived from the operations map that Put/Delete/Clear do not also store to (a cached sorted view would make scans and the commit batch use superseded operations); (b) Buffer.Get returns a copy of the buffered value (tree defect, repaired: bda0e66); (c) batch-is-recognisable-at-replay: the log has no batch frame, a stop inside the final log write recovers a strict subset of a committed transaction — violated on this tree, recorded as an open finding with a demo. " +
 			"Added after blind round 7: a table is sealed only where a new active table is installed afterwards (reviewed callers of SetImmutable; MemTable.Put drops writes into a sealed table silently); ErrWALClosed is answered only on status == WALStatusClosed (a rotating log must answer ErrWALRotating, the only error the storage layer retries). " +
 			"Added after blind round 8: the merging iterator's Next advances children with their own Next only (no Seek to a computed successor key). " +
-			"Added after blind round 9: Value() copies keep nil nil and empty empty (nil is the deletion marker below the merge); iterators below the merging layer position and step without looking at deletion markers.",
+			"Added after blind round 9: Value() copies keep nil nil and empty empty (nil is the deletion marker below the merge); iterators below the merging layer position and step without looking at deletion markers. " +
+			"Added after blind round 10: the memtable's Put/Delete always insert; the storage mutators are called from the reviewed set of callers only (a decorator that splits a commit into several ApplyBatch calls is a new caller).",
 		NotDecided: "atomicity across a crash (the log format has no batch frame: a torn batch cannot be recognised at replay — design remark, needs a crash to observe); concurrent-reader interleavings.",
 		Rules:      []func(*Ctx, *Reporter){ruleTxBufferIsolation, ruleTxApplyInside, ruleStSingleWriter, ruleStEffectOnce, ruleWalBatch, ruleTxBufferCapture, ruleTxRollbackClears, ruleTxOpsBuffered, ruleReuseValidatesTail, ruleWalFileWriters, ruleBufferViewsFollowMap, ruleBatchFrame, ruleAccessorsReturnCopies, ruleSealOnlyWhenReplaced, ruleClosedMeansClosed, ruleMergeNextStepsOnly, ruleValueWrappersKeepNil, ruleSourcesDoNotHideTombstones, ruleMemTablePutAlwaysInserts, subRules(ruleC16Who, "storage-mutator-callers")},
 	})
@@ -44,7 +46,8 @@ func init() {
 			"Added after blind round 6: cross-listed: write-ahead (the memtable insert is dominated by the success edge of the log append in Put, Delete and ApplyBatch) and entry-copies (newEntry copies key and value). " +
 			"Added after blind round 7: GetNextSequence answers with the counter in every state (the rotation asks a log it has just marked rotating); SkipList.Find's selection table cross-listed (ties between equal sequence numbers). " +
 			"Added after blind round 8: every exit of MemTablePool.Put/Delete passes MemTable.Put/Delete (no 'redundant write' shortcut in the pool). " +
-			"Added after blind round 9: every answering exit of EngineFacade.Get / IsDeleted passes a storage lookup made by this invocation, directly or in a helper on every path — not inside a function literal that a once/coalescing/memo object decides to run.",
+			"Added after blind round 9: every answering exit of EngineFacade.Get / IsDeleted passes a storage lookup made by this invocation, directly or in a helper on every path — not inside a function literal that a once/coalescing/memo object decides to run. " +
+			"Added after blind round 10: the memtable's Put/Delete always insert; behind the success edge of storage.Put/Delete the facade has no failing exit and makes no new error.",
 		NotDecided: "everything else: real-time order, stale reads across rotation, all schedules with background flush/compaction.",
 		Rules:      []func(*Ctx, *Reporter){ruleStSingleWriter, ruleStEffectOnce, ruleStStamps, ruleWalRotatingNoEffect, ruleStWalPointer, ruleLayersLeaveOnly, ruleStRotationSeqOnly, ruleWalStatusUnderLock, ruleStWriteAhead, subRules(ruleMemImmutableFields, "entry-copies"), ruleGetNextSequenceAlwaysAnswers, subRules(ruleMemFind, "find-selection-table"), rulePoolWritesReachTable, ruleFacadeReadsStorageEveryTime, ruleMemTablePutAlwaysInserts, ruleFacadeErrorMeansNoEffect},
 	})
@@ -60,7 +63,8 @@ func init() {
 			"Added after blind round 6: the Append*WithSequence variants leave the counter beyond the explicit number on both branches of their update; NewManager has a log in Manager.wal before recoverFromWAL hands the recovered maximum over; Primary.lastSyncedSeq (the reported position) is assigned in the synchronous callback or under a new > old guard, never unguarded in a goroutine; retention deletes a log file only when MaxSeq < MinSequenceKeep (cross-listed from C12: the file that alone records how far the counter got). " +
 			"Added after blind round 7: GetNextSequence answers in every state; the acknowledged position of a session only moves forward (cross-listed from C13). " +
 			"Added after blind round 8: the replay rule of C02 (a replay that fails on a legal entry type sends recovery down the arm that restarts the numbering). " +
-			"Added after blind round 9: one lock is held exclusively at every call of storage.Manager.rotateWAL (two overlapping rotations seed two logs from the same counter; repaired in 1685eec); the only way past the store in WAL.UpdateNextSequence is 'not larger than the counter'.",
+			"Added after blind round 9: one lock is held exclusively at every call of storage.Manager.rotateWAL (two overlapping rotations seed two logs from the same counter; repaired in 1685eec); the only way past the store in WAL.UpdateNextSequence is 'not larger than the counter'. " +
+			"Added after blind round 10: closed log segments are deleted only from the reviewed caller (the primary's retention).",
 		NotDecided: "the actual numbers in a log directory after arbitrary histories; interactions between WAL retention and sequence numbers stored in SSTables.",
 		Rules:      []func(*Ctx, *Reporter){ruleWalMonotone, ruleStRotationSeqOnly, ruleStRecovery, ruleStStamps, ruleWalStatusUnderLock, ruleWalCounterUnderLock, ruleExplicitSeqBelowCounter, ruleLogExistsBeforeRecovery, ruleReportedSeqMonotone, subRules(ruleRetention, "retention-spares-current-log"), subRules(ruleReplCursorWriters, "cursor-writers"), ruleGetNextSequenceAlwaysAnswers, ruleReplayMirrorsLiveApply, ruleRotationsAreSerialised, ruleHandOverAlwaysTaken, ruleRetentionCallers},
 	})
@@ -114,7 +118,8 @@ func init() {
 			"Added after blind round 6: flushMemTable replaces the entry collected for a key only by a version with a greater sequence number (an older deletion marker cannot overwrite a newer put in the SSTable). " +
 			"Added after blind round 7: after every successful decodeNext the decoded key becomes the block iterator's current key before the next decode (delta base = predecessor); recovery limits and flush table cross-listed. " +
 			"Added after blind round 8: the block fetcher accepts every block size the writer can produce (no constant cap on a failing exit). " +
-			"Added after blind round 9: the pool-write rule of C06 and the selection comparator of C12 are listed here too (a tombstone that is not inserted, a newer file moved below an older one).",
+			"Added after blind round 9: the pool-write rule of C06 and the selection comparator of C12 are listed here too (a tombstone that is not inserted, a newer file moved below an older one). " +
+			"Added after blind round 10: every *.sst entry of the table directory is opened and appended at load, or the open fails (no other way to pass a file over than 'directory' or 'other extension'); the memtable's Put/Delete always insert unless the table is immutable.",
 		NotDecided: "that the bytes returned equal the bytes put for every program (values); block/index seek landing inside SSTables (value-level binary search — the pinned tree gets this wrong, declared under C11); effects of memtable-size configurations.",
 		Rules:      []func(*Ctx, *Reporter){ruleLayerOrder, ruleTombstoneShortCircuit, ruleMemComparator, ruleMemFind, ruleMemInsert, ruleFlushRules, ruleStStamps, ruleEmptyNotDeleted, ruleTombstoneMarker, ruleRecencyAtLoad, ruleTxOpsBuffered, ruleWalNoBufferDrop, ruleWalFragmentation, ruleSortKeysFromSortedSlice, ruleMemTableGetTable, ruleRecoveryLastTableMutable, ruleComparatorNoSubtraction, ruleFlushKeepsNewest, ruleDeltaBaseIsPredecessor, ruleRecoveryLimitsAreConfigured, ruleNoCapOnBlockSize, rulePoolWritesReachTable, ruleSelectionTakesOldest, ruleLoaderLoadsEveryTable, ruleMemTablePutAlwaysInserts},
 	})
@@ -130,7 +135,8 @@ func init() {
 			"Added after blind round 6: HierarchicalIterator.Seek/SeekToFirst/SeekToLast position EVERY child (loop over all of h.iterators without early exit, call on every iteration, passed by every exit); IteratorAdapter.SeekToLast re-seeks to the last key it saw, so that it lands on the newest version of the greatest key. " +
 			"Added after blind round 7: the scan-sources rule of C04, including the loop bounds; the iterator adapters' Seek always passes the wrapped iterator's Seek with the caller's target. " +
 			"Added after blind round 8: the buffer-seek rule; sstable.Iterator positions its index cursor before reading it in seekToFirst/SeekToLast/Seek; FilteredIterator.SeekToLast's fallback scan runs to the end of the inner iterator; the merge-next rule of C03. " +
-			"Added after blind round 9: Value() copies keep nil nil; sources hand tombstones to the merge (no positioning function of a memtable, table, block, buffer, bounding or filtering iterator asks IsTombstone or reads a delete flag).",
+			"Added after blind round 9: Value() copies keep nil nil; sources hand tombstones to the merge (no positioning function of a memtable, table, block, buffer, bounding or filtering iterator asks IsTombstone or reads a delete flag). " +
+			"Added after blind round 10: no function of the table reader branches on a comparison of a block locator's size with a constant.",
 		NotDecided: "exactness of the key set for all data sets, seek landing inside SSTable blocks (see C11), scans concurrent with writers beyond the snapshot rule.",
 		Rules:      []func(*Ctx, *Reporter){ruleSourceOrder, ruleMergePolicy, ruleBounds, ruleFilter, ruleScanConsumers, ruleMemVisibility, ruleTxOwnWrites, ruleCompositePositionsEveryChild, ruleMemSeekToLastNewest, ruleScanSourcesComplete, ruleAdapterSeekAlwaysSeeks, ruleBufferSeekStateless, ruleTableIteratorRewindsIndex, ruleFilteredSeekToLastScansAll, ruleMergeNextStepsOnly, ruleValueWrappersKeepNil, ruleSourcesDoNotHideTombstones, ruleNoCapOnLocatorSize},
 	})
